@@ -49,6 +49,8 @@ def body(chk):
     import c03_powerlaw
     # nsctpl: jets of the primitives + sources over abstract jets (IR compiled with -fno-inline so that the primitive members stay calls)
     val += c03_powerlaw.build(chk, chk.world(extra=('-fno-inline',)))
+    import c09
+    c09.add_type_purity(chk, ['navierstokes_2d', 'navierstokes_3d', 'navierstokes_4d', 'axisymmetric_navierstokes', 'axi_cns'])
     chk.solve_all()
     pde.validate_terms(chk, val, npoints=1 if chk.tier == 'quick' else 4)
 
